@@ -144,6 +144,10 @@ func genEmph(c *common.Ctx, emit func(...string)) {
 			sb.WriteString(common.Pick(c.Rand, emphAtoms))
 		}
 		emit("emph", common.Hex(sb.String()))
+		// the same text as a paragraph, rendered by elvish and by the
+		// spec-derived reference (the emph op above only compares with the
+		// model of elvish's own delimiter stack)
+		emit("doc", common.Hex("p "+sb.String()))
 	}
 }
 
